@@ -52,7 +52,7 @@ Proof.
 Qed.
 
 Lemma counter_refines w hi hr h : 1 <= w ->
-  cell_q (run (counter_m w hi hr) (cell0 0) h) = run (counter_spec w hi hr) 0 h.
+  cell_q (run (counter_m w hi hr) cell_zero h) = run (counter_spec w hi hr) 0 h.
 Proof.
   intros Hw. apply (run_sim (counter_m w hi hr) (counter_spec w hi hr) (cnt_rel w)).
   - intros; apply counter_step_sim; auto.
@@ -76,7 +76,7 @@ Proof.
 Qed.
 
 Lemma stepup_refines w hr h : 1 <= w ->
-  cell_q (run (stepup_m w hr) (cell0 0) h) = run (stepup_spec w hr) 0 h.
+  cell_q (run (stepup_m w hr) cell_zero h) = run (stepup_spec w hr) 0 h.
 Proof.
   intros Hw. apply (run_sim (stepup_m w hr) (stepup_spec w hr) (cnt_rel w)).
   - intros; apply stepup_step_sim; auto.
